@@ -450,10 +450,37 @@ func (e *Engine) merge(p *Path) {
 	for _, v := range r.Violations {
 		perLabel[v.Label]++
 	}
+	// keep the three SHORTEST counterexamples per label (fewest schedule steps, then fewest
+	// decisions, then the lexicographically first trace): deterministic whatever the order in
+	// which the workers finish, and the simplest history is the one replayed first
+	shorter := func(a, b Violation) bool {
+		if len(a.Log) != len(b.Log) {
+			return len(a.Log) < len(b.Log)
+		}
+		if len(a.Trace) != len(b.Trace) {
+			return len(a.Trace) < len(b.Trace)
+		}
+		for i := range a.Trace {
+			if a.Trace[i] != b.Trace[i] {
+				return a.Trace[i] < b.Trace[i]
+			}
+		}
+		return false
+	}
 	for _, v := range p.viols {
 		if perLabel[v.Label] < 3 {
 			r.Violations = append(r.Violations, v)
 			perLabel[v.Label]++
+			continue
+		}
+		worst := -1
+		for i, w := range r.Violations {
+			if w.Label == v.Label && (worst < 0 || shorter(r.Violations[worst], w)) {
+				worst = i
+			}
+		}
+		if worst >= 0 && shorter(v, r.Violations[worst]) {
+			r.Violations[worst] = v
 		}
 	}
 	for f := range p.funcs {
